@@ -44,8 +44,8 @@ func init() {
 		ID: "C15",
 		Explanation: "Decides structural necessary conditions of token-set resolution: SIBLING(resolvesets): each work-list case of syntax.ResolveSets (any/first/last/precede/follow) instantiates the sets its definition needs, walks the rule in the right direction from the right position, stops after the first non-nullable symbol (polarity of the nullable test) and falls through to the enclosing nonterminal only when the walk was not stopped. MUSTPASS(set-contribution): in the any/first/last cases every rule reaches the rules[r].set test (set-defined nonterminals are empty rules carrying a set). " +
 			"SHARED: an in-place, self-dependent rewrite of TokenSet nodes inside a per-set traversal consults a visited set that outlives one traversal (nodes are shared between named sets). CYCLE: every recursion over *syntax.TokenSet (cyclic for mutually recursive named sets) is cut by a visited set keyed by the node. ALIAS/ESCAPE: scratch buffers of the set closure never alias an operand and buffer-backed slices are not retained. GUARD(complcycle): complement-on-cycle is reported exactly under op==complement ∧ onStack. DTX(setalg) as in C25. " +
-			"Not decided: that the fixpoint equals the definitional sets, Nullable(), reachability from the first input. LOOPSHAPE(first-input): syntax.rules leaves the loop over m.Inputs right after it enqueued the first end-of-input input (sets are computed over what the first input reaches, not over every input). GUARD(set-alias): in the second pass over named sets the node whose content is copied into a set's slot is fresh or known not to be another named set's slot (named sets may refer to sets declared later). DTX(nullable): isNullable, evaluated for every expression kind and every valuation of its operands (32 cells), is the documented table (wrappers Assign/Append/Arrow/Prec and `+` lists are as nullable as their operand, Choice = any, Sequence = all, Reference = membership). COPY(struct-slices): an instantiated copy of a set node (*ret = *set) gets a fresh Sub list before operands are appended. BOUNDARY(terminals) as in C14 (set leaves that refer to nonterminal #0 are renumbered too).",
-		Rules: []string{"SIBLING(resolvesets)", "MUSTPASS(set-contribution)", "CYCLE", "SHARED", "ALIAS", "ESCAPE", "GUARD(complcycle)", "DTX(setalg)", "GUARD(unionclone)", "LOOPSHAPE(first-input)", "GUARD(set-alias)", "DTX(nullable)", "COPY(struct-slices)", "BOUNDARY(terminals)"},
+			"Not decided: that the fixpoint equals the definitional sets, Nullable(), reachability from the first input. LOOPSHAPE(first-input): syntax.rules leaves the loop over m.Inputs right after it enqueued the first end-of-input input (sets are computed over what the first input reaches, not over every input). GUARD(set-alias): in the second pass over named sets the node whose content is copied into a set's slot is fresh or known not to be another named set's slot (named sets may refer to sets declared later). DTX(nullable): isNullable, evaluated for every expression kind and every valuation of its operands (32 cells), is the documented table (wrappers Assign/Append/Arrow/Prec and `+` lists are as nullable as their operand, Choice = any, Sequence = all, Reference = membership). COPY(struct-slices): an instantiated copy of a set node (*ret = *set) gets a fresh Sub list before operands are appended. BOUNDARY(terminals) as in C14 (set leaves that refer to nonterminal #0 are renumbered too). GUARD(reuse-equal): extractNonterm reuses an existing helper nonterminal of the same provisional name only on the true edge of expr.Equal(existing value) (names are not injective; two different inline sets never share a nonterminal).",
+		Rules: []string{"SIBLING(resolvesets)", "MUSTPASS(set-contribution)", "CYCLE", "SHARED", "ALIAS", "ESCAPE", "GUARD(complcycle)", "DTX(setalg)", "GUARD(unionclone)", "LOOPSHAPE(first-input)", "GUARD(set-alias)", "DTX(nullable)", "COPY(struct-slices)", "BOUNDARY(terminals)", "GUARD(reuse-equal)"},
 		Run: func(c *Ctx) {
 			ruleRESOLVESETS(c)
 			ruleSETCONTRIB(c)
@@ -60,6 +60,7 @@ func init() {
 			ruleFIRSTINPUT(c)
 			ruleSETALIAS(c)
 			ruleNULLABLEDTX(c)
+			ruleREUSEEQUAL(c)
 			ruleSTRUCTCOPY(c, "syntax")
 			ruleBOUNDARY(c, "syntax", "compiler")
 		},
@@ -157,14 +158,15 @@ func init() {
 		ID: "C24",
 		Explanation: "Decides structural necessary conditions of 'shift-DFA scanners agree with the tables they pack': INTERVAL(bitpack): with field width W read from Pack (target*W, state*W), the accepted number of states K satisfies K*W <= 64, (K-1)*W < 2^W and K <= len(onEoi); actions < A encode as action*2+1 < 2^W; Scan decodes with mask 2^W-1, /W and /2. " +
 			"CONSTAGREE(ascii): the guard on the last symbol-map entry is <= the byte split (128) below which bytes are mapped individually. GUARD(nobacktrack): tables with checkpoints or several start states are rejected (the -1-cell decode and state 0 start are valid only then). GLOBALS: no package-level mutable state in shiftdfa. " +
-			"Not decided: equality of results on all inputs as such. CONSTAGREE(last-entry): the symbol Pack gives to all non-ASCII bytes is the Target of the last SymbolMap entry (the catch-all range), as lex.Tables documents. CODEC(lexdfa): the reference side - lex.Tables.Scan decodes the cell classes as documented, including the end-of-input fallback to the last accepted position. UNITS(scan-size) as in C09 (the reference side of the comparison).",
-		Rules: []string{"INTERVAL(bitpack)", "CONSTAGREE(ascii)", "GUARD(nobacktrack)", "GLOBALS", "CONSTAGREE(last-entry)", "CODEC(lexdfa)", "UNITS(scan-size)"},
+			"Not decided: equality of results on all inputs as such. CONSTAGREE(last-entry): the symbol Pack gives to all non-ASCII bytes is the Target of the last SymbolMap entry (the catch-all range), as lex.Tables documents. CODEC(lexdfa): the reference side - lex.Tables.Scan decodes the cell classes as documented, including the end-of-input fallback to the last accepted position. UNITS(scan-size) as in C09 (the reference side of the comparison). UNITS(scan-bytes): Tables.Scan decodes a rune only on the false edge of t.ScanBytes (in bytes mode every byte is one symbol).",
+		Rules: []string{"INTERVAL(bitpack)", "CONSTAGREE(ascii)", "GUARD(nobacktrack)", "GLOBALS", "CONSTAGREE(last-entry)", "CODEC(lexdfa)", "UNITS(scan-size)", "UNITS(scan-bytes)"},
 		Run: func(c *Ctx) {
 			ruleSHIFTDFA(c)
 			ruleLASTENTRY(c)
 			rulePKGGLOBALS(c, "shiftdfa")
 			ruleLEXCODEC(c)
 			ruleSCANSIZE(c)
+			ruleSCANBYTES(c)
 		},
 	})
 }
@@ -174,8 +176,8 @@ func init() {
 		ID: "C09",
 		Explanation: "Decides structural necessary conditions of longest-match-with-priority tables: DTX(accept-priority): in a DFA state the accepted rule is replaced only by a rule of strictly higher precedence, equal precedence with a different action is an error. FIELDCOV(checkpoint): backtracking checkpoints are shared only between transitions with the same target state and the same accepted action, and carry that action. " +
 			"CODEC(lexdfa): the writer's three cell classes (state, checkpoint k = -1-k, accept = -1-action shifted below the checkpoints) are produced under the right tests; Tables.Scan reads Backtrack[-1-cell] only for actionStart < cell < 0, computes actionStart-cell only for cell <= actionStart (also on the end-of-input transition), and prefers a recorded checkpoint over the invalid action. " +
-			"Not decided: subset construction, epsilon closure, symbol-class compression. PAIR(checkpoint): recording a backtracking checkpoint records both the accepted action and the offset (Tables.Scan and the generated lexers). GUARD(empty-accept): addPattern reports `accepts empty text` both for accepting instructions linked from a pattern's first instruction and for an accepting first instruction itself (patterns that compile to no instruction: (), a{0}). INPLACE(write-behind-read): the in-place link filter of reCompiler.compile never writes ahead of its read cursor. GUARD(full-match): callers that use Tables.Scan to classify a whole constant (compiler.resolveClasses) compare the matched size with len(text) before trusting the action. LOOPSHAPE(fold-orbit) as in C10 (case folding visits the whole orbit, also in bytes mode). LOSTWRITE(range-copy): stores into fields of range copies in lex and compiler are observable (the token id of a backtracking checkpoint is written to Backtrack[i], not to a copy). CONSTAGREE(reserved-tokens) as in C11. UNITS(scan-size): the size Tables.Scan returns is made of 0, len(text) and cursor offsets only; the start-condition parameter (same type, also called start) never flows into it. GUARD(eoi-cycle): generate() refuses tables with a cycle of end-of-input transitions (the scanners feed EOI without consuming, so only the absence of such a cycle makes them terminate at the end of input).",
-		Rules: []string{"DTX(accept-priority)", "FIELDCOV(checkpoint)", "CODEC(lexdfa)", "PAIR(checkpoint)", "GUARD(empty-accept)", "INPLACE(write-behind-read)", "GUARD(full-match)", "LOOPSHAPE(fold-orbit)", "LOSTWRITE(range-copy)", "CONSTAGREE(reserved-tokens)", "UNITS(scan-size)", "GUARD(eoi-cycle)"},
+			"Not decided: subset construction, epsilon closure, symbol-class compression. PAIR(checkpoint): recording a backtracking checkpoint records both the accepted action and the offset (Tables.Scan and the generated lexers). GUARD(empty-accept): addPattern reports `accepts empty text` both for accepting instructions linked from a pattern's first instruction and for an accepting first instruction itself (patterns that compile to no instruction: (), a{0}). INPLACE(write-behind-read): the in-place link filter of reCompiler.compile never writes ahead of its read cursor. GUARD(full-match): callers that use Tables.Scan to classify a whole constant (compiler.resolveClasses) compare the matched size with len(text) before trusting the action. LOOPSHAPE(fold-orbit) as in C10 (case folding visits the whole orbit, also in bytes mode). LOSTWRITE(range-copy): stores into fields of range copies in lex and compiler are observable (the token id of a backtracking checkpoint is written to Backtrack[i], not to a copy). CONSTAGREE(reserved-tokens) as in C11. UNITS(scan-size): the size Tables.Scan returns is made of 0, len(text) and cursor offsets only; the start-condition parameter (same type, also called start) never flows into it. GUARD(eoi-cycle): generate() refuses tables with a cycle of end-of-input transitions (the scanners feed EOI without consuming, so only the absence of such a cycle makes them terminate at the end of input). UNITS(scan-bytes): Tables.Scan decodes a rune only on the false edge of t.ScanBytes (in bytes mode every byte is one symbol).",
+		Rules: []string{"DTX(accept-priority)", "FIELDCOV(checkpoint)", "CODEC(lexdfa)", "PAIR(checkpoint)", "GUARD(empty-accept)", "INPLACE(write-behind-read)", "GUARD(full-match)", "LOOPSHAPE(fold-orbit)", "LOSTWRITE(range-copy)", "CONSTAGREE(reserved-tokens)", "UNITS(scan-size)", "GUARD(eoi-cycle)", "UNITS(scan-bytes)"},
 		Run: func(c *Ctx) {
 			ruleACCEPTPRIO(c)
 			ruleCHECKPOINTKEY(c)
@@ -188,6 +190,7 @@ func init() {
 			ruleRESERVEDTOKENS(c)
 			ruleSCANSIZE(c)
 			ruleEOICYCLE(c)
+			ruleSCANBYTES(c)
 			ruleLOSTWRITE(c, "lex", "compiler")
 		},
 	})
@@ -504,8 +507,8 @@ func init() {
 	register(&Property{
 		ID: "C13",
 		Explanation: "Decides one structural necessary condition of 'desugaring preserves the language': DTX(expr-equal): Expand reuses an already extracted nonterminal for a sub-expression (lists, optionals, nested choices) when names match and (*Expr).Equal says the expressions are the same; the check evaluates Equal abstractly for every expression kind and requires that a difference in any component of the kind (symbol, arguments, every sub-expression including a list's separator, list flags, names, arrow flags, predicate, set index) makes it false and identical components make it true. " +
-			"LOOPSHAPE(marker-transparent): markers never hide symbols of a rule. Not decided: the expansion rules themselves (which productions a list/optional/choice turns into) — language equivalence of those is algorithmic and out of reach for this technique; two of the four independently seeded C13/C14 regressions are of that kind and are not detected (recorded in DESIGN.md). SIBLING(list-recursion): every rule Expand builds for a list places the recursive reference (and the separator) on the side the RightRecursive flag asks for; a placement that does not consult the flag is a violation. GUARD(drop-empty): where a Sub list is rebuilt, a child that became Empty is left out only under parent.Kind == Sequence (dropped from a Choice, an explicit %empty alternative disappears from the language). COPY(struct-slices): a value copy of an expression node (report.apply copies the arrow template) gets its own Sub list before it becomes reachable by or(), which appends to Sub in place. LOSTWRITE(range-copy): stores into fields of range copies of struct elements in syntax/ and compiler/ are observable. DTX(nullable) as in C15 (set(...) references are resolved over nullable symbols).",
-		Rules: []string{"DTX(expr-equal)", "SIBLING(list-recursion)", "LOOPSHAPE(marker-transparent)", "BOUNDARY(terminals)", "GUARD(drop-empty)", "COPY(struct-slices)", "LOSTWRITE(range-copy)", "DTX(nullable)"},
+			"LOOPSHAPE(marker-transparent): markers never hide symbols of a rule. Not decided: the expansion rules themselves (which productions a list/optional/choice turns into) — language equivalence of those is algorithmic and out of reach for this technique; two of the four independently seeded C13/C14 regressions are of that kind and are not detected (recorded in DESIGN.md). SIBLING(list-recursion): every rule Expand builds for a list places the recursive reference (and the separator) on the side the RightRecursive flag asks for; a placement that does not consult the flag is a violation. GUARD(drop-empty): where a Sub list is rebuilt, a child that became Empty is left out only under parent.Kind == Sequence (dropped from a Choice, an explicit %empty alternative disappears from the language). COPY(struct-slices): a value copy of an expression node (report.apply copies the arrow template) gets its own Sub list before it becomes reachable by or(), which appends to Sub in place. LOSTWRITE(range-copy): stores into fields of range copies of struct elements in syntax/ and compiler/ are observable. DTX(nullable) as in C15 (set(...) references are resolved over nullable symbols). GUARD(reuse-equal): extractNonterm reuses an existing helper nonterminal of the same provisional name only on the true edge of expr.Equal(existing value) (names are not injective; two different inline sets never share a nonterminal).",
+		Rules: []string{"DTX(expr-equal)", "SIBLING(list-recursion)", "LOOPSHAPE(marker-transparent)", "BOUNDARY(terminals)", "GUARD(drop-empty)", "COPY(struct-slices)", "LOSTWRITE(range-copy)", "DTX(nullable)", "GUARD(reuse-equal)"},
 		Run: func(c *Ctx) {
 			ruleEXPREQUAL(c)
 			ruleLISTRECURSION(c)
@@ -513,6 +516,7 @@ func init() {
 			ruleMARKERLOOPSAST(c)
 			ruleDROPEMPTY(c)
 			ruleNULLABLEDTX(c)
+			ruleREUSEEQUAL(c)
 			ruleSTRUCTCOPY(c, "compiler", "syntax")
 			ruleLOSTWRITE(c, "syntax", "compiler")
 		},
